@@ -25,6 +25,9 @@ type upFault struct {
 	At     int    // offset in the raw request stream (head + chunked body) at which it fires; -1 = after the complete body
 	Drain  bool   // 5xx only: keep reading the rest of the body after answering
 	Linger time.Duration
+	// Status, if not 0, replaces the 503 of a "5xx" fault (401: the proxy's front
+	// end turns an identity token down)
+	Status int
 	// RetryAfter, if not empty, is sent as Retry-After with a 503
 	RetryAfter string
 }
@@ -197,16 +200,20 @@ func (p *rawProxy) sink(c *sim.Conn, at *rawAttempt, buf *[]byte, headLen int, f
 			}
 			answered = true
 			at.Acked = 503
+			if f.Status != 0 {
+				at.Acked = f.Status
+				p.w.K.Count(fmt.Sprintf("fault.upload_%d", f.Status))
+			}
 			at.AckedAt = p.w.K.Now()
 			ra := ""
 			if f.RetryAfter != "" {
 				ra = "Retry-After: " + f.RetryAfter + "\r\n"
 			}
 			if f.Drain {
-				fmt.Fprintf(c, "HTTP/1.1 503 Service Unavailable\r\n%sContent-Length: 8\r\n\r\ninjected", ra)
+				fmt.Fprintf(c, "HTTP/1.1 %d Injected\r\n%sContent-Length: 8\r\n\r\ninjected", at.Acked, ra)
 				return false, true
 			}
-			fmt.Fprintf(c, "HTTP/1.1 503 Service Unavailable\r\n%sConnection: close\r\nContent-Length: 8\r\n\r\ninjected", ra)
+			fmt.Fprintf(c, "HTTP/1.1 %d Injected\r\n%sConnection: close\r\nContent-Length: 8\r\n\r\ninjected", at.Acked, ra)
 			if f.Linger > 0 {
 				time.Sleep(f.Linger)
 			}
@@ -362,6 +369,26 @@ func worldC06(w *World) {
 	w.K.LatencyMenu = [][]time.Duration{{0}, {0, time.Millisecond}, {5 * time.Millisecond}}[t.Choice(3, "latprofile")]
 	w.K.SegmentPct = []int{0, 30}[t.Choice(2, "segpct")]
 	w.K.SendBuf = []int{64 << 10, 4 << 10, 512}[t.Choice(3, "sendbuf")]
+	// the agent may run on a VM: its client to the proxy then adds the VM's identity
+	// token, fetched from the metadata server (a different token every time), and the
+	// proxy's front end may turn a token down with 401
+	gce := !faultFree && t.Rare(1, 4, "gce")
+	if gce {
+		var tokMu sync.Mutex
+		tokN := 0
+		sim.GCE.On = true
+		sim.GCE.Get = func(path string) (string, error) {
+			if strings.Contains(path, "/identity") {
+				tokMu.Lock()
+				tokN++
+				n := tokN
+				tokMu.Unlock()
+				return fmt.Sprintf("vm-identity-token-%d", n), nil
+			}
+			return "sa@project.iam.gserviceaccount.example", nil
+		}
+		w.Probe("agent_on_a_vm")
+	}
 	nReq := t.Range(1, 3, "requests")
 	rp := &rawProxy{w: w, reqs: map[string][]byte{}, faults: map[string][]upFault{}, Attempts: map[string][]*rawAttempt{}}
 	type breq struct {
@@ -417,6 +444,9 @@ func worldC06(w *World) {
 					f.At = -10 - 3 // mid first chunk header / data
 				case 7, 8:
 					f.At = -1 // after the complete body
+				}
+				if gce && f.Kind == "5xx" && t.Rare(1, 2, "401") {
+					f.Status = 401
 				}
 				f.RetryAfter = []string{"", "", "0", "1", "Thu, 01 Jan 2015 00:00:00 GMT"}[t.Choice(5, "retryafter")]
 				f.Drain = t.Choice(2, "drain") == 1
